@@ -41,11 +41,11 @@ def san_env(base, extra=None):
     return e
 
 
-def replay_input(binp, path, base_env, times=3, timeout=25):
+def replay_input(binp, path, base_env, times=3, timeout=25, extra_env=None):
     """Runs the target on one saved input `times` times. Returns (number of failing runs, kind of the last failing run)."""
     n = 0; kind = None
     for _ in range(times):
-        rc, so, se, _ = _run([binp, '-timeout=%d' % timeout, '-rss_limit_mb=3000', '-malloc_limit_mb=512', path], timeout * 3 + 30, san_env(base_env), cpu=timeout * 2)
+        rc, so, se, _ = _run([binp, '-timeout=%d' % timeout, '-rss_limit_mb=3000', '-malloc_limit_mb=512', path], timeout * 3 + 30, san_env(base_env, extra_env), cpu=timeout * 2)
         if rc != 0:
             n += 1; kind = classify(se, path)
     return n, kind
